@@ -661,10 +661,9 @@ fn parse_positional<'a>(
                 update_state_with_new_positional(pos_index)
             }
         }
-        ParseState::Opt(..) => unreachable!(
-            "This branch won't be hit,
-            because ParseState::Opt should not be seen as a positional argument and passed to this function."
-        ),
+        // An unknown flag taken as a (hyphen) value of the positional while an option was still
+        // waiting for its value: a new positional value starts here
+        ParseState::Opt(..) => update_state_with_new_positional(pos_index),
     }
 }
 
